@@ -335,3 +335,14 @@ def raw_gfa(draw, max_nodes=7, max_links=12, seq_mode="seq", link_tags=True, seg
     if no_final_newline_ok and draw(st.integers(0, 5)) == 0:
         text = text[:-1]
     return {"segments": segs, "links": links, "text": text}
+
+
+@st.composite
+def any_graph(draw, tier, real_fraction=8, max_window=30, **kw):
+    """rgfa(**kw), or - in the thorough tier, one case in `real_fraction` - a window of the real test graph."""
+    if tier == "thorough" and draw(st.integers(0, real_fraction - 1)) == 0:
+        from vf import realgraph
+
+        n = realgraph.n_elements()
+        return realgraph.window(draw(st.integers(0, n - 3)), draw(st.integers(2, max_window)))
+    return draw(rgfa(**kw))
